@@ -54,11 +54,12 @@ class Responder:
             self.sent.append(self.net.loop.time() + self.latency + 0.001 * k)
 
 
-def _run(ch, spas, filt, window):
+def _run(ch, spas, filt, window, hdelay=0.0, stall=0.0):
     """spas: tuple of (index, latency, mult)."""
     lib.reset_library()
     loop = VLoop(ch, window=window)
     loop.batch_choices_enabled = window > 0
+    loop.stall = stall
     net = VNet(loop)
     rs = []
     for sp in spas:
@@ -70,6 +71,9 @@ def _run(ch, spas, filt, window):
 
     async def handler(event, **kw):
         events.append((loop.time(), event.name, kw.get("spa_descriptor")))
+        if hdelay and event.name == "LOCATING_DISCOVERED_SPA":
+            import asyncio
+            await asyncio.sleep(hdelay)  # a client whose handler does some I/O for every spa found
 
     target = rs[0] if rs else None
     kw = {}
@@ -107,7 +111,7 @@ def _run(ch, spas, filt, window):
             return "spa_identifier" not in kw or kw["spa_identifier"] == r.id.decode("latin1")
 
         acc = [(a, r) for a, r in arrivals if passes(r)]
-        slack = POLL * (3 + min(n_dgrams, 8)) + window * 2
+        slack = POLL * (3 + min(n_dgrams, 8)) + window * 2 + stall * (4 + min(n_dgrams, 8)) + hdelay * len(rs)
         listed = loc.spas
         ids = [d.identifier for d in listed]
         if len(set(ids)) != len(ids):
@@ -140,7 +144,7 @@ def _run(ch, spas, filt, window):
             else:
                 exp = max(T_INIT, first)
             exp = min(exp, T_MAX)
-            if t_ret > T_MAX + 2 * POLL + window * 2 + 1e-9:
+            if t_ret > T_MAX + 2 * POLL + window * 2 + 3 * stall + hdelay + 1e-9:
                 why = ("late", f"returned after {t_ret:.2f}s, discovery timeout is {T_MAX}s")
             elif t_ret > exp + slack + 1e-9:
                 why = ("late", f"returned after {t_ret:.2f}s, expected about {exp:.2f}s (+{slack:.1f})")
@@ -150,7 +154,7 @@ def _run(ch, spas, filt, window):
             for tr in net.transports:
                 if not tr.closed:
                     why = ("endpoint", "discovery endpoint not closed on return")
-            loop.run_for(0.001)
+            loop.run_for(0.001 if not hdelay else 2.0)
             live = [x.get_name() for x in tm._tasks if not x.done() and x.get_name().startswith("LOC:")]
             if why is None and live:
                 why = ("tasks", f"helper tasks alive after return: {live}")
@@ -173,17 +177,19 @@ def _run(ch, spas, filt, window):
 
 
 def _job(job):
-    (spas, filt, window), prefix = job
+    (spas, filt, window), prefix = job[0][:3], job[1]
+    hdelay = job[0][3] if len(job[0]) > 3 else 0.0
+    stall = job[0][4] if len(job[0]) > 4 else 0.0
 
     def body(ch):
-        why, obs = _run(ch, spas, filt, window)
+        why, obs = _run(ch, spas, filt, window, hdelay, stall)
         viol = []
         if why:
             names = [SPAS[sp[0]][1] for sp in spas]
             cls = "pipe-in-name" if any("|" in n for n in names) else "plain"
             viol.append((f"C15|{why[0]}|{cls}|filter={filt}",
-                         f"spas {[(SPAS[sp[0]][0].decode('latin1'), SPAS[sp[0]][1]) + tuple(sp[1:]) for sp in spas]} (latency, multiplicity[, first replies lost]) filter={filt}: {why[1]}",
-                         {"spas": [list(s) for s in spas], "filter": filt, "window": window,
+                         f"spas {[(SPAS[sp[0]][0].decode('latin1'), SPAS[sp[0]][1]) + tuple(sp[1:]) for sp in spas]} (latency, multiplicity[, first replies lost]) filter={filt}{f' client handler awaits {hdelay}s' if hdelay else ''}{f' every wake-up {stall}s late' if stall else ''}: {why[1]}",
+                         {"spas": [list(s) for s in spas], "filter": filt, "window": window, "hdelay": hdelay, "stall": stall,
                           "prefix": [list(p) for p in ch.trace]}))
         return {"violations": viol, "obs": obs, "end": obs}
 
@@ -208,6 +214,17 @@ def run(ctx):
         for tr in itertools.combinations(range(4), 3):
             for ls in itertools.product(lats3, repeat=3):
                 plans.append((tuple((i, l, 1) for i, l in zip(tr, ls)), f, 0.0))
+    # a client handler that awaits for every discovered spa; a loaded host (every timer wake-up late)
+    for f in FILTERS:
+        for hd in (0.3, 1.0):
+            plans.append((((0, 0.05, 1),), f, 0.0, hd))
+            for lb in (0.05, 0.95, 3.4, 3.95, 9.5):
+                plans.append((((0, 0.05, 1), (2, lb, 1)), f, 0.0, hd))
+        for st in (0.05, 0.09):
+            plans.append(((), f, 0.0, 0.0, st))
+            for la in (0.05, 3.95, 9.5):
+                plans.append((((0, la, 1),), f, 0.0, 0.0, st))
+                plans.append((((3, la, 1), (1, 0.05, 2)), f, 0.0, 0.0, st))
     # heavy reply multiplicity: more datagrams per second than the consumer drains
     for f in FILTERS:
         for m in (8, 12):
@@ -257,7 +274,8 @@ def run(ctx):
 
 
 def replay(ctx, data):
-    res = _job(((tuple(tuple(s) for s in data["spas"]), data["filter"], data["window"]), [tuple(p) for p in data["prefix"]]))
+    res = _job(((tuple(tuple(s) for s in data["spas"]), data["filter"], data["window"], data.get("hdelay", 0.0), data.get("stall", 0.0)),
+                [tuple(p) for p in data["prefix"]]))
     ctx.merge_violations(res["violations"])
     ctx.set("states", 1)
     ctx.set("transitions", 1)
